@@ -1,36 +1,51 @@
 """C12 — demultiplexing assigns the declared sample, the exact barcode, on either strand
 (pkg/obingslibrary, pkg/obiformats/ngsfilter_read.go)."""
-import json, re, itertools
+import json, re, itertools, os, tempfile, shutil, time
 
 PROPS = ["C12/Props.v"]
 META = dict(
-    text="Rocq theorems (43, all closed under the global context) over an executable model of pkg/obingslibrary (Hamming, two-row Levenshtein, Closest*Tag fold over "
-         "the Go map, fixed / delimited / RESCUE tag windows, SampleIdentifier, the +i/-i pairing automaton of ExtractMultiBarcode with its stable sort of the hits) and of "
-         "FilterBestMatch: the nearest-tag fold returns the UNIQUE nearest declared tag for every iteration order (any permutation; [perms] enumerates exactly the "
-         "permutations and one correspondence case checks them all) and has, by design, no upper bound on the distance (theorem); the two-row DP is the Wagner-Fischer edit "
+    text="Rocq theorems (63, all closed under the global context) over an executable model of pkg/obingslibrary (Hamming, two-row Levenshtein, Closest*Tag fold over "
+         "the Go map, fixed / delimited / RESCUE tag windows, SampleIdentifier, the +i/-i pairing automaton of ExtractMultiBarcode with its stable sort of the hits), of "
+         "FilterBestMatch, and (round 3, Cmd.v) of the glue around it: the @param lines of a CSV sheet (every primer / one side / ONE primer through the table "
+         "CheckPrimerUnicity fills), the command-line overrides -e / --with-indels, and the routing of the records by the obimultiplex command. Proved: the nearest-tag fold "
+         "returns the UNIQUE nearest declared tag for every iteration order and has, by design, no upper bound on the distance; the two-row DP is the Wagner-Fischer edit "
          "distance; SAFETY (a sample only when both extracted tags identify declared tags under the declared mode and the pair is declared with that sample, otherwise the "
-         "error flag) for ANY list of primer hits; every record is cut exactly at the spans of its own hit pair (any matcher: substitution windows or re-aligned indel "
-         "spans) and the amplicons of a chimeric read are independent; canonical read and strand symmetry for fixed-length, delimited AND rescue tags (rescue: delimiter "
-         "runs shortened within tag_indels, observed tags longer / shorter than declared within tag_indels; lookForRescueTag characterised: returns the tag on that shape, "
-         "and always either nothing or a factor of the fragment within tag_indels of the declared length), for the specification matcher and for any matcher producing "
-         "the two intended hits (primer indels). The model is tied to the code on every run: sheets in both formats are parsed by the real ReadNGSFilter, reads built from "
-         "them (both strands, primer substitutions and indels, tag errors, rescue layouts, chimeras of every status pattern, nested / crossed / partial sites, near-identical "
-         "primers) go through the real ExtractMultiBarcode 2-4 times on freshly parsed libraries (the records must not depend on the Go map orders), Closest*Tag is run on "
-         "rebuilt markers until every iteration order of the tags has been observed (the order is read off the calls to the distance function), the same inputs are evaluated "
-         "by vm_compute in Coq, and a direct Python oracle states the parse, matched-primer (IUPAC edit distance in indel mode), canonical-read, strand-symmetry, safety, "
-         "rescue and determinism clauses on the implementation's output.",
+         "error flag) for ANY list of primer hits; every record is cut exactly at the spans of its own hit pair and the amplicons of a chimeric read are independent; "
+         "canonical read and strand symmetry for fixed-length, delimited AND rescue tags, for the specification matcher and for any matcher producing the two intended "
+         "hits; ROUTING: with -u the output and the file partition the records, an unflagged record reaches the output in every mode, a flagged one is lost only in the "
+         "default mode, and (composed with safety) every record on the output carries a sample its tags identify; PARAMETERS: a one-primer line changes exactly that side of "
+         "that marker, is a no-op for an unknown primer and - the hidden ordering dependency - for every primer while the primer table is still empty, the last line of a "
+         "kind wins, the result does not depend on the order of the markers in the Go map; -e N overrides every budget iff N > 0. The model is tied to the code on every "
+         "run: sheets in both formats (and the template printed by `obimultiplex --template`) are parsed by the real ReadNGSFilter, reads built from them (both strands, "
+         "primer substitutions and indels, tag errors, rescue layouts, chimeras, nested / crossed / partial sites, reads ending flush with a primer, reads already carrying "
+         "annotations of a previous demultiplexing) go through the real ExtractMultiBarcode 2-4 times on freshly parsed libraries, 40% of the sheets also through the "
+         "real ExtractMultiBarcodeSliceWorker with command-line options AND through the obimultiplex command itself (-e, --with-indels, --keep-errors, -u, --max-cpu, "
+         "--batch-size; the files it writes must be the in-process records routed by their flag), the same inputs are evaluated by vm_compute in Coq, and a direct Python "
+         "oracle states the parse, matched-primer, canonical-read, strand-symmetry, safety, rescue, determinism, annotation and routing clauses on the implementation's output.",
     note="Trusted: Coq kernel + vm_compute, harness, generators, verif hooks (VerifSamples, VerifLookFor*Tag, VerifPrimerMatches = copy of the hit-collection loop of "
          "ExtractMultiBarcode; a divergence between the copy and the real loop shows up as a correspondence mismatch). Primer hits of the model are the specification "
-         "matcher (mismatch count per window with IUPAC pattern letters, then the transcription of FilterBestMatch) for substitution-only primers; for sheets with "
-         "@indels the matcher is a PARAMETER: the model receives the spans reported by the library (C Manber automaton + LocatePattern re-alignment = property C10) and the "
-         "theorems quantify over any hit list. Rescue canonical theorem needs both sides in rescue mode (mixed fixed/rescue sides: oracle + correspondence only). "
-         "Fixed in round 2 (known_findings.d/C12.json): primers shared between markers were accepted (CheckPrimerUnicity ignored); records depended on the iteration order "
-         "of library.Markers when two markers hit the same position (now: markers in primer order + stable sort, which is what the model does, so begin ties are inside "
-         "the correspondence). By design, stated as a theorem and exhibited in the corpus: a tag at any distance is assigned when one declared tag is strictly nearest.")
+         "matcher for substitution-only primers; with @indels / --with-indels the matcher is a PARAMETER (spans reported by the library = property C10) and the theorems "
+         "quantify over any hit list. Rescue canonical theorem needs both sides in rescue mode (mixed sides: oracle + correspondence only). "
+         "Fixed in round 3 (known_findings.d/C12.json): records inherited the demultiplexing annotations the read already carried (a stale obimultiplex_error flagged "
+         "and discarded identified barcodes - obimultiplex re-run on its own -u file lost every read). Fixed in round 2: shared primers accepted; records depending on "
+         "the iteration order of library.Markers. By design, stated as theorems and exhibited in the corpus: a tag at any distance is assigned when one declared tag is "
+         "strictly nearest; `-e 0` is ignored (the test is N > 0 in obimultiplex and obitagpcr alike: a budget of 0 can only be asked for with @param,primer_mismatches,0 "
+         "- the generator draws -e in 1..4 or absent). "
+         "Outside the property / not exercised: the single-amplicon API of round 0 (match.go Match / ExtractBarcode, Marker.Match, Marker.Compile / NGSLibrary.Compile, "
+         "worker.go ExtractBarcodeSlice*, obiapat BestMatch / IsMatching) - no command reaches it any more; NGSLibrary.SetMatchingFor and Marker.SetMatching / SetTagSpacer / "
+         "SetTagDelimiter / SetTagIndels / SetAllowedMismatch / SetAllowsIndel - no @param line reaches them (the library-level setters call the Forward / Reverse ones): "
+         "the template documents forward_matching / reverse_matching and a one-primer form of matching that library_parameter does not know, such lines are skipped with a "
+         "warning and the sheet keeps strict matching (conservative: flagged, never mis-assigned), reported as a documentation defect; the text of error messages "
+         "('row %d has %d columns' prints the number of rows); a line naming an unknown primer is ignored silently (the check accepts ignoring or refusing, never applying "
+         "it to another primer); fatal branches that cannot be reached from a parsed library (marker not found, Subsequence errors); a primer longer than 63 symbols makes "
+         "Compile2 fail, ExtractMultiBarcodeSliceWorker ignores the error and the first read crashes the command (loud, not a mis-assignment); MakeApatSequence / Free / "
+         "String of pattern.go are C10's.")
 TRUSTED = ["primer hits of the model = specification matcher (mismatch count <= budget per window, IUPAC pattern letters) + FilterBestMatch transcription for substitution-only primers; "
-           "with @indels the hits are a parameter of the model (spans exported by the verif hook VerifPrimerMatches); the C Manber automaton and LocatePattern are property C10",
+           "with @indels / --with-indels the hits are a parameter of the model (spans exported by the verif hook VerifPrimerMatches); the C Manber automaton and LocatePattern are property C10",
            "verif hook VerifPrimerMatches is a copy of the collection loop of ExtractMultiBarcode (compared with the real loop through the records on every run)",
-           "csv / mimetype detection of the sheet reader are only exercised (parse clause of the direct oracle), not modelled",
+           "csv / mimetype detection of the sheet reader, option parsing (getoptions), the fasta reader / writer and the iterator plumbing (MakeISliceWorker, FilterOn, DivideOn) are "
+           "exercised by the command differential, not modelled: Cmd.v models what they are asked to do (parameters, routing)",
+           "lower-casing of primers / tags and the decimal / boolean syntax of @param values are done by the Python renderer of the Coq terms",
            "reads over a/c/g/t (BioSequence.ReverseComplement modelled on IUPAC letters only)",
            "iteration orders of Go maps: every order of <= 5 sample pairs is forced by rebuilding the marker (observed through the distance callback); marker-map orders are sampled by 2-4 re-parses per sheet"]
 
@@ -188,14 +203,43 @@ def gen_sheet(rng, force=None):
                     params.append(("forward_tag_indels", [str(ti)])); glob["ftind"] = ti
                 else:
                     params.append(("reverse_tag_indels", [str(ti)])); glob["rtind"] = ti
-        if rng.random() < 0.15:
-            params.append(("indels", ["true"])); glob["find"] = glob["rind"] = True
+        elif rng.random() < 0.15:                   # "0" = no delimiter (the value of the documentation template)
+            params.append((rng.choice(["tag_delimiter", "forward_tag_delimiter", "reverse_tag_delimiter"]), ["0"]))
+        if rng.random() < 0.2:
+            k4 = rng.random()
+            if k4 < 0.6:
+                params.append(("indels", ["true"])); glob["find"] = glob["rind"] = True
+            elif k4 < 0.8:                          # primer indels on one side only
+                params.append(("forward_indels", ["true"])); glob["find"] = True
+            else:
+                params.append(("reverse_indels", ["true"])); glob["rind"] = True
+            if rng.random() < 0.2:
+                params.append(("indels", ["false"])); glob["find"] = glob["rind"] = False      # the last one wins
     used = set()
+    per_primer = []
     for mi in range(nm):
         f = gen_primer(rng, primers); primers.append(f)
         r = gen_primer(rng, primers); primers.append(r)
         ftl, rtl = rng.choice([(0, 0), (4, 4), (8, 8), (4, 4), (8, 8), (4, 0), (0, 8), (4, 8), (8, 4)])
         m = dict(glob, fwd=f, rev=r, ftl=ftl, rtl=rtl)
+        if fmt == "csv" and rng.random() < 0.4:     # two-argument @param lines: one primer of one marker
+            m["_pp"] = True
+            for _pp in range(rng.choice([1, 1, 2])):
+                side = rng.choice("fr")
+                pr = f if side == "f" else r
+                prtxt = pr.upper() if rng.random() < 0.5 else pr
+                what = rng.choice(["spacer", "primer_mismatches", "tag_delimiter", "tag_delimiter", "tag_indels", "tag_indels", "indels"])
+                if what == "spacer" and not m[side + "delim"]:
+                    v = rng.choice([0, 1, 4]); per_primer.append(("spacer", [prtxt, str(v)])); m[side + "sp"] = v
+                elif what == "primer_mismatches":
+                    v = rng.choice([0, 1, 3]); per_primer.append(("primer_mismatches", [prtxt, str(v)])); m[side + "err"] = v
+                elif what == "tag_delimiter" and m[side + "sp"] >= 1:
+                    dl = rng.choice("acgt0")
+                    per_primer.append(("tag_delimiter", [prtxt, dl.upper() if rng.random() < 0.2 else dl])); m[side + "delim"] = 0 if dl == "0" else ord(dl)
+                elif what == "tag_indels" and m[side + "delim"]:
+                    v = rng.choice([0, 1, 2]); per_primer.append(("tag_indels", [prtxt, str(v)])); m[side + "tind"] = v
+                elif what == "indels":
+                    v = rng.random() < 0.7; per_primer.append(("indels", [prtxt, "true" if v else "false"])); m[side + "ind"] = v
         alpha_f = "".join(c for c in "acgt" if ord(c) != m["fdelim"])
         alpha_r = "".join(c for c in "acgt" if ord(c) != m["rdelim"])
         ns = 1 if (ftl == 0 and rtl == 0) else rng.choice([1, 2, 3, 4, 6])
@@ -221,23 +265,19 @@ def gen_sheet(rng, force=None):
         markers.append(m)
     # two markers whose forward (or reverse) primers differ by one base: both patterns hit the same site of a read
     near = False
-    if nm >= 2 and rng.random() < 0.15:
+    if nm >= 2 and rng.random() < 0.15 and not markers[1].get("_pp"):
         a, b = markers[0], markers[1]
         side = rng.choice(["fwd", "rev"])
         p0 = a[side]; i = rng.randrange(2, len(p0) - 2)
         p1 = p0[:i] + rng.choice([c for c in "acgt" if c != p0[i]]) + p0[i + 1:]
         if p1 not in primers:
             b[side] = p1; near = True
-    # per-primer parameters (csv only)
-    if fmt == "csv" and rng.random() < 0.3:
-        m = rng.choice(markers)
-        side = rng.choice("fr")
-        pr = m["fwd"] if side == "f" else m["rev"]
-        what = rng.choice(["spacer", "primer_mismatches"])
-        if what == "spacer" and not m["fdelim"]:
-            v = rng.choice([0, 1, 4]); params.append(("spacer", [pr.upper() if rng.random() < 0.3 else pr, str(v)])); m[side + "sp"] = v
-        elif what == "primer_mismatches":
-            v = rng.choice([0, 1, 3]); params.append(("primer_mismatches", [pr, str(v)])); m[side + "err"] = v
+    # a two-argument @param naming a primer the sheet does not use: no marker may change (the library ignores the line silently)
+    unknown = False
+    if fmt == "csv" and rng.random() < 0.12:
+        what, v = rng.choice([("spacer", "3"), ("primer_mismatches", "0"), ("tag_delimiter", "a"), ("tag_indels", "2"), ("indels", "true")])
+        per_primer.insert(rng.randrange(len(per_primer) + 1), (what, [gen_primer(rng, primers), v])); unknown = True
+    params += per_primer
     lines = []
 
     def tagtxt(a, b):
@@ -251,10 +291,11 @@ def gen_sheet(rng, force=None):
         for m in markers:
             for s in m["samples"]:
                 t = tagtxt(s["f"], s["r"])
-                l = "%s %s %s %s %s F @ k=%d;" % (s["exp"], s["sample"], t.upper() if up else t, m["fwd"].upper() if up else m["fwd"], m["rev"], rng.randrange(9))
+                kk = rng.randrange(9); s["extra"] = {"k": str(kk)}
+                l = "%s %s %s %s %s F @ k=%d;" % (s["exp"], s["sample"], t.upper() if up else t, m["fwd"].upper() if up else m["fwd"], m["rev"], kk)
                 lines.append(l if rng.random() < 0.8 else l.replace(" ", "\t"))
         if rng.random() < 0.3:
-            lines.insert(rng.randrange(len(lines) + 1), "")
+            lines.insert(rng.randrange(len(lines) + 1), rng.choice(["", "", "  ", "\t"]))
     else:
         for (k, v) in params:
             lines.append(",".join(["@param", k] + v))
@@ -268,17 +309,52 @@ def gen_sheet(rng, force=None):
         for m in markers:
             for s in m["samples"]:
                 t = tagtxt(s["f"], s["r"])
-                row = [s["exp"], s["sample"], t.upper() if up else t, m["fwd"].upper() if up else m["fwd"], m["rev"]] + (["x%d" % rng.randrange(5)] if extra else [])
+                xx = "x%d" % rng.randrange(5); s["extra"] = {"extra": xx} if extra else {}
+                row = [s["exp"], s["sample"], t.upper() if up else t, m["fwd"].upper() if up else m["fwd"], m["rev"]] + ([xx] if extra else [])
                 rows.append(",".join(row[i] for i in perm))
         if rng.random() < 0.3:
             rng.shuffle(rows)
         lines += rows
-        if len(rows) < 2 and False:
-            pass
+        if rng.random() < 0.15:                     # blanks after the commas (the reader trims leading space), also in the @param lines
+            lines = [l.replace(",", ", ") for l in lines]
     markers.sort(key=lambda m: (m["fwd"], m["rev"]))
     for m in markers:
         m["samples"].sort(key=lambda s: (s["f"], s["r"]))
-    return dict(markers=markers, fmt=fmt, near_identical_primers=near), "\n".join(lines) + "\n"
+    return dict(markers=markers, fmt=fmt, near_identical_primers=near, unknown_primer_param=unknown, per_primer_params=len(per_primer) - (1 if unknown else 0)), \
+        "\n".join(lines) + ("\n" if rng.random() < 0.85 else "")
+
+
+def gen_big_sheet(rng, nf, nr, fmt, mode="strict"):
+    """a plate: nf forward tags x nr reverse tags, every combination a sample. Real sheets have 96 samples and more: they are larger than
+    the 3072 bytes the mimetype detector looks at (dropLastLine cuts the sample at a line end) and, from ~2000 samples on, larger than the
+    128 KiB buffer of OBIMimeNGSFilterTypeGuesser (the rest of the stream is chained behind the buffer)"""
+    f = gen_primer(rng, []); r = gen_primer(rng, [f])
+    def tags(n):
+        out = set()
+        while len(out) < n:
+            out.add(rseq(rng, 8))
+        return sorted(out)
+    ft, rt = tags(nf), tags(nr)
+    m = dict(fwd=f, rev=r, ftl=8, rtl=8, fsp=0, rsp=0, ferr=2, rerr=2, find=False, rind=False, fmode=mode, rmode=mode, fdelim=0, rdelim=0, ftind=0, rtind=0, samples=[])
+    lines = []
+    if fmt == "csv":
+        if mode != "strict":
+            lines.append("@param,matching,%s" % mode)
+        lines.append("experiment,sample,sample_tag,forward_primer,reverse_primer,well")
+    for i, a in enumerate(ft):
+        for j, b in enumerate(rt):
+            sn = "p%02d_%02d" % (i, j)
+            if fmt == "csv":
+                m["samples"].append(dict(f=a, r=b, sample=sn, exp="plate", extra={"well": "w%d" % (i * nr + j)}))
+                lines.append("plate,%s,%s:%s,%s,%s,w%d" % (sn, a, b, f, r, i * nr + j))
+            else:
+                m["samples"].append(dict(f=a, r=b, sample=sn, exp="plate", extra={"well": str(i * nr + j)}))
+                lines.append("plate %s %s:%s %s %s F @ well=%d;" % (sn, a, b, f, r, i * nr + j))
+    if fmt == "old":
+        mode = "strict"
+    m["samples"].sort(key=lambda x: (x["f"], x["r"]))
+    txt = "\n".join(lines) + "\n"
+    return dict(markers=[m], fmt=fmt, big=len(txt)), txt
 
 
 def gen_shared_primer(rng):
@@ -324,6 +400,50 @@ def gen_malformed(rng):
     bar = rseq(rng, 20)
     rd = rseq(rng, 12) + t1[0] + f + bar + rc(r) + rc(t1[1]) + rseq(rng, 12)
     lib = dict(fmt=fmt, markers=[], malformed="tags of different lengths in one marker")
+    return lib, txt, [dict(read=rd, kind="malformed", amps=[]), dict(read=rc(rd), kind="malformed", amps=[])]
+
+
+MALFORMED2 = ["duplicate_pair_old", "duplicate_pair_csv", "duplicate_pair_csv_case", "missing_column", "short_row", "long_row", "old_5_fields", "old_7_fields",
+              "bad_spacer", "bad_matching", "bad_delimiter", "bad_mismatches", "bad_tag_indels", "big_short_row"]
+
+
+def gen_malformed2(rng, kind=None):
+    """other sheets that declare no usable library: the same tag pair for two samples of one marker, a missing column, rows / lines with
+    a wrong number of fields, parameter values that mean nothing. All must be refused (an error, or the fatal log of the parameter table)."""
+    f = gen_primer(rng, []); r = gen_primer(rng, [f])
+    t = [rseq(rng, 4) for _ in range(4)]
+    kind = kind or rng.choice(MALFORMED2)
+    hdr = "experiment,sample,sample_tag,forward_primer,reverse_primer\n"
+    rows = "e,s1,%s:%s,%s,%s\ne,s2,%s:%s,%s,%s\n" % (t[0], t[1], f, r, t[2], t[3], f, r)
+    fatal_ok = False
+    if kind == "duplicate_pair_old":
+        txt = "e s1 %s:%s %s %s F @\ne s2 %s:%s %s %s F @\n" % (t[0], t[1], f, r, t[0], t[1], f, r)
+    elif kind == "duplicate_pair_csv":
+        txt = hdr + "e,s1,%s:%s,%s,%s\ne,s2,%s:%s,%s,%s\n" % (t[0], t[1], f, r, t[0], t[1], f, r)
+    elif kind == "duplicate_pair_csv_case":           # the same pair and marker written in the other case
+        txt = hdr + "e,s1,%s:%s,%s,%s\ne,s2,%s:%s,%s,%s\n" % (t[0], t[1], f, r, t[0].upper(), t[1], f.upper(), r)
+    elif kind == "missing_column":
+        col = rng.choice(["experiment", "sample", "sample_tag", "forward_primer", "reverse_primer"])
+        txt = hdr.replace(col, "c" + col) + rows
+    elif kind == "short_row":
+        txt = hdr + rows + "e,s3,%s:%s,%s\n" % (t[1], t[0], f)
+    elif kind == "long_row":
+        txt = hdr + rows + "e,s3,%s:%s,%s,%s,zz\n" % (t[1], t[0], f, r)
+    elif kind == "big_short_row":                     # the faulty row lies beyond the 3072 bytes the format detector looks at: the CSV reader itself must refuse it
+        _, big = gen_big_sheet(rng, 12, 8, "csv")
+        txt = big + "plate,zz,%s:%s,%s\n" % (rseq(rng, 8), rseq(rng, 8), f)
+    elif kind == "old_5_fields":
+        txt = "e s1 %s:%s %s %s F @\ne s2 %s:%s %s F @\n" % (t[0], t[1], f, r, t[2], t[3], f)
+    elif kind == "old_7_fields":
+        txt = "e s1 %s:%s %s %s F @\ne s2 x %s:%s %s %s F @\n" % (t[0], t[1], f, r, t[2], t[3], f, r)
+    else:
+        fatal_ok = True
+        line = dict(bad_spacer="@param,spacer,two", bad_matching="@param,matching,fuzzy", bad_delimiter="@param,tag_delimiter,x",
+                    bad_mismatches="@param,primer_mismatches,%s,many" % f, bad_tag_indels="@param,tag_indels,1.5")[kind]
+        txt = line + "\n" + hdr + rows
+    bar = rseq(rng, 20)
+    rd = rseq(rng, 5) + t[0] + f + bar + rc(r) + rc(t[1]) + rseq(rng, 5)
+    lib = dict(fmt="old" if "old" in kind else "csv", markers=[], malformed="not a library: " + kind, fatal_ok=fatal_ok)
     return lib, txt, [dict(read=rd, kind="malformed", amps=[]), dict(read=rc(rd), kind="malformed", amps=[])]
 
 
@@ -390,7 +510,7 @@ def amplicon(rng, m, s, kf=0, kr=0, tagmut=None, barlen=None, pindel=False):
     else:
         pf = mutate_primer(rng, m["fwd"], kf)
         pr = mutate_primer(rng, m["rev"], kr)
-    bar = rseq(rng, barlen if barlen is not None else rng.choice([1, 5, 20, 30, 45]))
+    bar = rseq(rng, barlen if barlen is not None else (400 if rng.random() < 0.04 else rng.choice([1, 5, 20, 30, 45, 45, 45, 150])))
     left = (spf if m["fdelim"] and tf else "") + tf + spf
     right = rc(spr) + rc(tr) + (rc(spr) if m["rdelim"] and tr else "")
     rescue_ok = True
@@ -440,6 +560,43 @@ def bad_tags(rng, m):
     return dict(f=a, r=b, sample="?", exp="?")
 
 
+# annotations a read may carry before it is demultiplexed: the file written by `obimultiplex -u` / `--keep-errors` demultiplexed again
+# (another sheet, another -e), reads annotated by other tools
+STALE = [{"obimultiplex_error": "No barcode identified"},
+         {"obimultiplex_error": "Cannot associate sample to the tag pair (aacg:ggtt)", "obimultiplex_direction": "reverse", "obimultiplex_forward_tag": "aacg",
+          "obimultiplex_reverse_tag": "ggtt", "obimultiplex_forward_proposed_tag": "aacg", "obimultiplex_amplicon_rank": "1/1", "obimultiplex_forward_error": 1},
+         {"sample": "zzz", "experiment": "old"},
+         {"sample": "zzz", "obimultiplex_forward_tag": "tttt", "obimultiplex_reverse_tag": "tttt"},
+         {"foo": 1, "bar": "x"},
+         {"count": 3, "obimultiplex_error": "No barcode identified"}]
+TOOL_KEYS = ("sample", "experiment")
+
+
+def own_annotations(ann):
+    """what a read's own annotations contribute to every record cut out of it: everything but the demultiplexing vocabulary"""
+    return {k: str(v) for k, v in (ann or {}).items() if k not in TOOL_KEYS and not k.startswith("obimultiplex_")}
+
+
+def effective_lib(lib):
+    """the library obimultiplex works with: the command-line options -e N (N > 0) and --with-indels override the sheet for every primer"""
+    cli = lib.get("cli") or {}
+    if not cli.get("emis") and not cli.get("windels"):
+        return lib
+    out = dict(lib, markers=[dict(m) for m in lib["markers"]])
+    for m in out["markers"]:
+        if cli.get("emis"):
+            m["ferr"] = m["rerr"] = cli["emis"]
+        if cli.get("windels"):
+            m["find"] = m["rind"] = True
+    return out
+
+
+def gen_cli(rng):
+    return dict(emis=rng.choice([0, 0, 0, 1, 3, 4]), windels=rng.random() < 0.2, mode=rng.choice(["default", "default", "keep", "unid", "unid", "keep+unid"]),
+                cpu=rng.choice([1, 3]), batch=rng.choice([1, 2, 100]), input=rng.choice(["file", "file", "stdin", "two_files", "two_files", "gz", "fastq"]),
+                one_cpu=rng.random() < 0.15, no_order=rng.random() < 0.3)
+
+
 def gen_reads(rng, lib, n):
     """list of dict(read=..., kind=..., amps=[info with offsets], rcflag)"""
     out = []
@@ -447,7 +604,7 @@ def gen_reads(rng, lib, n):
     for _ in range(n):
         m = rng.choice(ms)
         s = rng.choice(m["samples"])
-        kind = rng.choice(["canon", "canon", "canon", "pmis", "pmis", "pover", "tagerr", "tagerr", "chimera", "chimera", "chimera2", "chimera2", "partial", "noprimer", "short", "cross", "nested"])
+        kind = rng.choice(["canon", "canon", "canon", "pmis", "pmis", "pover", "tagerr", "tagerr", "chimera", "chimera", "chimera2", "chimera2", "partial", "noprimer", "short", "flush", "cross", "nested"])
         pind = bool(m["find"] or m["rind"])
         fl, fr = rseq(rng, rng.choice([0, 0, 1, 3, 10])), rseq(rng, rng.choice([0, 0, 1, 3, 10]))
         amps = []
@@ -509,6 +666,11 @@ def gen_reads(rng, lib, n):
             a, inf = amplicon(rng, m, s)
             c1 = rng.randrange(0, inf["left"] + 1); c2 = rng.randrange(0, inf["right"] + 1)
             body = a[c1:len(a) - c2]; fl = fr = ""
+        elif kind == "flush":                       # the read starts / ends exactly with a primer: no base is left for the tag (nor for the delimiters)
+            a, inf = amplicon(rng, m, s)
+            c1 = rng.choice([inf["left"], inf["left"], 0]); c2 = rng.choice([inf["right"], inf["right"], 0])
+            body = a[c1:len(a) - c2]; fl = fr = ""
+            kind = "short"
         elif kind == "nested":                      # +j ... +i ... -j : the complementary hit of ANOTHER marker must not close the amplicon
             m2 = rng.choice(ms)
             a, inf = amplicon(rng, m, s); a2, inf2 = amplicon(rng, m2, rng.choice(m2["samples"]))
@@ -523,9 +685,11 @@ def gen_reads(rng, lib, n):
             amps[0]["off"] = len(fl); amps[0]["flip"] = False
         if not read:
             read = "a"
-        flip = rng.random() < 0.5
-        out.append(dict(read=read, kind=kind, amps=amps, marker=(m["fwd"], m["rev"]), pattern=pat2))
-        out.append(dict(read=rc(read), kind=kind, amps=amps, marker=(m["fwd"], m["rev"]), pattern=pat2, rc_of=len(out) - 1))
+        ann = None
+        if rng.random() < 0.15:                     # the read already carries annotations: its own, or those of a previous demultiplexing
+            ann = dict(rng.choice(STALE))
+        out.append(dict(read=read, kind=kind, amps=amps, marker=(m["fwd"], m["rev"]), pattern=pat2, annots=ann))
+        out.append(dict(read=rc(read), kind=kind, amps=amps, marker=(m["fwd"], m["rev"]), pattern=pat2, rc_of=len(out) - 1, annots=ann))
     return out
 
 
@@ -568,8 +732,11 @@ def find_marker(lib, fp, rp):
 
 def check_safety(lib, res):
     """SAFETY clause on one output record. returns None or a reason string"""
-    if res["err"] == "No barcode identified":
-        return None if not res["has_sample"] else "sample on an unidentified read"
+    if res["err"] == "No barcode identified" and not res.get("rank"):
+        if res["has_sample"]:
+            return "sample on an unidentified read"
+        left = [k for k in ("dir", "fp", "rp", "fm", "rm", "ft", "rt", "fpt", "rpt", "exp") if res.get(k)]
+        return None if not left else "unidentified read with demultiplexing annotations this run did not give it: %s" % left
     _, m = find_marker(lib, res["fp"], res["rp"])
     if m is None:
         return "record names primers that are not a marker of the sheet"
@@ -765,6 +932,10 @@ def demux_hits_term(lib, sid, read, hits, recs):
 
 
 IMPORTS = "From Coq Require Import NArith ZArith List. Import ListNotations.\nFrom OBI.C12 Require Import Model.\nOpen Scope N_scope.\n"
+
+
+IMPORTS3 = "From Coq Require Import NArith ZArith List Bool. Import ListNotations.\nFrom OBI.C12 Require Import Model Cmd.\nOpen Scope N_scope.\n"
+USE_CMD_MODEL = True
 
 
 # ----------------------------------------------------------------------------- unit operations
@@ -970,7 +1141,295 @@ def corpus():
     g1 = "g" + "catt" + P1 + bar + rc(P2) + rc("cccc") + "a"     # catt: distance 4 to aaaa, 2 to ggtt -> s2
     g2 = "g" + "cgtc" + P1 + bar + rc(P2) + rc("ttta") + "a"     # reverse tag ttta at distance 4 of the only reverse tag -> still assigned
     out.append((lib4, sheet4, [dict(read=r, kind="corpus", amps=[], tag="by-design:no-distance-bound") for r in (g1, rc(g1), g2, rc(g2))]))
+    # seed C12-C class: unequal spacers, fixed-position tags of different lengths, reads in BOTH orientations (on the reverse-oriented
+    # read the forward tag is cut behind the complemented forward primer with the FORWARD spacer); a tag error on either side
+    lib7 = dict(fmt="csv", markers=[dict(fwd=P1, rev=P2, ftl=4, rtl=8, fsp=2, rsp=0, ferr=2, rerr=2, find=False, rind=False, fmode="strict", rmode="strict",
+                                           fdelim=0, rdelim=0, ftind=0, rtind=0,
+                                           samples=[dict(f="aacc", r="ggttggaa", sample="s1", exp="e", extra={}), dict(f="acgt", r="ggttggaa", sample="s2", exp="e", extra={}),
+                                                    dict(f="cgta", r="ttggaagg", sample="s3", exp="e", extra={})]),
+                                      dict(fwd=Q1, rev=Q2, ftl=8, rtl=4, fsp=0, rsp=3, ferr=2, rerr=2, find=False, rind=False, fmode="strict", rmode="strict",
+                                           fdelim=0, rdelim=0, ftind=0, rtind=0, samples=[dict(f="acgtacgt", r="ttgg", sample="s4", exp="e", extra={})])])
+    lib7["markers"].sort(key=lambda m: (m["fwd"], m["rev"]))
+    sheet7 = ("@param,forward_spacer,2\n@param,reverse_spacer,0\n@param,spacer,%s,0\n@param,spacer,%s,3\nexperiment,sample,sample_tag,forward_primer,reverse_primer\n"
+              "e,s1,aacc:ggttggaa,%s,%s\ne,s2,acgt:ggttggaa,%s,%s\ne,s3,cgta:ttggaagg,%s,%s\ne,s4,acgtacgt:ttgg,%s,%s\n" % (Q1, Q2.upper(), P1, P2, P1, P2, P1, P2, Q1, Q2))
+    rds7 = []
+    for m7 in lib7["markers"]:
+        for s7 in m7["samples"]:
+            for tm in (None, ("f", "sub"), ("r", "sub")):
+                a, inf = amplicon(crng, m7, s7, barlen=15, tagmut=tm)
+                inf["off"] = 3; inf["flip"] = False
+                if tm:
+                    inf["tagmut"] = tm
+                rds7.append(dict(read="cat" + a + "ga", kind="tagerr" if tm else "canon", amps=[inf], tag="seed:C12-C-class"))
+                rds7.append(dict(read=rc("cat" + a + "ga"), kind="tagerr" if tm else "canon", amps=[inf], rc_of=len(rds7) - 1))
+    out.append((lib7, sheet7, rds7))
+    # seed C12-D class: every two-argument @param form (spacer, tag_delimiter, tag_indels, primer_mismatches, indels), the primer written in
+    # capitals: each must reach the named primer only (forward side of the first marker in rescue mode, its reverse side untouched; reverse
+    # budget of the second marker 1, indels for its forward primer only)
+    lib8 = dict(fmt="csv", markers=[dict(fwd=P1, rev=P2, ftl=4, rtl=4, fsp=2, rsp=0, ferr=2, rerr=2, find=False, rind=False, fmode="strict", rmode="strict",
+                                           fdelim=ord("t"), rdelim=0, ftind=1, rtind=0,
+                                           samples=[dict(f="aacc", r="ggaa", sample="s1", exp="e", extra={}), dict(f="ccgg", r="ctca", sample="s2", exp="e", extra={})]),
+                                      dict(fwd=Q1, rev=Q2, ftl=0, rtl=8, fsp=0, rsp=0, ferr=2, rerr=1, find=True, rind=False, fmode="strict", rmode="strict",
+                                           fdelim=0, rdelim=0, ftind=0, rtind=0, samples=[dict(f="", r="acgtacgt", sample="s3", exp="e", extra={})])],
+                per_primer_params=5)
+    lib8["markers"].sort(key=lambda m: (m["fwd"], m["rev"]))
+    sheet8 = ("@param,spacer,%s,2\n@param,tag_delimiter,%s,T\n@param,tag_indels,%s,1\n@param,primer_mismatches,%s,1\n@param,indels,%s,true\n"
+              "experiment,sample,sample_tag,forward_primer,reverse_primer\ne,s1,aacc:ggaa,%s,%s\ne,s2,ccgg:ctca,%s,%s\ne,s3,-:acgtacgt,%s,%s\n"
+              % (P1.upper(), P1.upper(), P1.upper(), Q2.upper(), Q1.upper(), P1, P2, P1, P2, Q1, Q2))
+    rds8 = []
+    for m8 in lib8["markers"]:
+        for s8 in m8["samples"]:
+            for kr in (0, 1, 2):
+                a, inf = amplicon(crng, m8, s8, barlen=15, kr=kr)
+                inf["off"] = 3; inf["flip"] = False
+                rds8.append(dict(read="cat" + a + "ga", kind="pmis", amps=[inf], tag="seed:C12-D-class"))
+                rds8.append(dict(read=rc("cat" + a + "ga"), kind="pmis", amps=[inf], rc_of=len(rds8) - 1))
+    out.append((lib8, sheet8, rds8))
     return out
+
+
+def template_case(ctx, broken):
+    """the sheet printed by `obimultiplex --template` (what the documentation tells the users to write): read by declared_from_csv (its comments,
+    its '0' delimiters, its capital primers), it must be accepted and mean what it says; canonical reads of each of its samples, both
+    strands, in process and through the command"""
+    from vlib import sh
+    bindir = command_dir(ctx, broken)
+    if not bindir:
+        return None
+    rcode, out, err, dt = sh([os.path.join(bindir, "obimultiplex"), "--template"], timeout=60)
+    if rcode != 0 or "sample_tag" not in out:
+        broken.append(dict(kind="command", detail="obimultiplex --template: exit %s %s" % (rcode, err[-300:])))
+        return None
+    try:
+        lib = declared_from_csv(out)
+    except Exception as e:                           # a template this reader does not understand: nothing is asserted about it
+        ctx.cov["template_not_understood"] = repr(e)
+        return None
+    import random
+    trng = random.Random(1200 + ctx.seed)
+    lib["cli"] = dict(emis=0, windels=False, mode="unid", cpu=2, batch=3)
+    lib["template"] = True
+    return lib, out, gen_reads(trng, lib, 8)
+
+
+# ----------------------------------------------------------------------------- the obimultiplex command (IExtractBarcode: options, worker, routing)
+KNOWN_KEYS = {"obimultiplex_direction", "obimultiplex_forward_primer", "obimultiplex_reverse_primer", "obimultiplex_forward_match", "obimultiplex_reverse_match",
+              "obimultiplex_forward_error", "obimultiplex_reverse_error", "obimultiplex_forward_tag", "obimultiplex_reverse_tag", "obimultiplex_forward_proposed_tag",
+              "obimultiplex_reverse_proposed_tag", "obimultiplex_forward_tag_dist", "obimultiplex_reverse_tag_dist", "sample", "experiment", "obimultiplex_error",
+              "obimultiplex_amplicon_rank", "obimultiplex_forward_matching", "obimultiplex_reverse_matching"}
+
+
+def rec_of(seq, ann):
+    """one record of a command output (sequence + JSON header) in the shape of the harness observation"""
+    g = lambda k: str(ann[k]) if k in ann else ""
+    gi = lambda k: (ann[k] if isinstance(ann[k], int) and not isinstance(ann[k], bool) else -2) if k in ann else -1
+    return dict(seq=seq, dir=g("obimultiplex_direction"), fp=g("obimultiplex_forward_primer"), rp=g("obimultiplex_reverse_primer"),
+                fm=g("obimultiplex_forward_match"), rm=g("obimultiplex_reverse_match"), fe=gi("obimultiplex_forward_error"), re=gi("obimultiplex_reverse_error"),
+                ft=g("obimultiplex_forward_tag"), rt=g("obimultiplex_reverse_tag"), fpt=g("obimultiplex_forward_proposed_tag"), rpt=g("obimultiplex_reverse_proposed_tag"),
+                has_fpt="obimultiplex_forward_proposed_tag" in ann, has_rpt="obimultiplex_reverse_proposed_tag" in ann,
+                fd=gi("obimultiplex_forward_tag_dist"), rd=gi("obimultiplex_reverse_tag_dist"), sample=g("sample"), has_sample="sample" in ann,
+                exp=g("experiment"), err=g("obimultiplex_error"), has_err="obimultiplex_error" in ann, rank=g("obimultiplex_amplicon_rank"),
+                fmt=g("obimultiplex_forward_matching"), rmt=g("obimultiplex_reverse_matching"),
+                extra={k: str(v) for k, v in ann.items() if k not in KNOWN_KEYS})
+
+
+def parse_fasta(txt):
+    """{read index: [records]} of a fasta file written by the command (ids r<i> or r<i>_sub[a..b])"""
+    out = {}
+    cur = None
+    for line in txt.splitlines():
+        if line.startswith(">"):
+            hd = line[1:].split(" ", 1)
+            m = re.match(r"^r(\d+)(_sub\[\d+\.\.\d+\])?$", hd[0])
+            ann = json.loads(hd[1]) if len(hd) > 1 and hd[1].strip().startswith("{") else {}
+            cur = [int(m.group(1)) if m else -1, ann, []]
+            out.setdefault(cur[0], []).append(cur)
+        elif cur is not None:
+            cur[2].append(line.strip())
+    return {k: [rec_of("".join(c[2]), c[1]) for c in v] for k, v in out.items()}
+
+
+def route(mode, recs):
+    """THE ROUTING OF THE COMMAND (the statement; Model.v route): what goes to the standard output and to the -u file"""
+    good = [r for r in recs if not r["has_err"]]
+    bad = [r for r in recs if r["has_err"]]
+    if mode == "keep":
+        return recs, []
+    if mode in ("unid", "keep+unid"):               # with a file for the flagged records --keep-errors adds nothing
+        return good, bad
+    return good, []
+
+
+def run_command(bindir, lib, txt, reads, wd, tag):
+    """runs obimultiplex on the sheet and the reads (fasta, the reads' own annotations in the headers) with the options of lib['cli'];
+    returns (argv, rc, {read: records on stdout}, {read: records in the -u file}, stderr tail)"""
+    from vlib import sh
+    cli = lib["cli"]
+    sf, rf, uf = os.path.join(wd, tag + ".sheet"), os.path.join(wd, tag + ".fasta"), os.path.join(wd, tag + ".unid.fasta")
+    open(sf, "w").write(txt)
+    how = cli.get("input", "file")                   # how the reads reach the command: one file, standard input, two files, gzip, fastq
+
+    def rec(i, r, fastq=False):
+        hd = "r%d%s" % (i, (" " + json.dumps(r["annots"], sort_keys=True)) if r.get("annots") else "")
+        return "@%s\n%s\n+\n%s\n" % (hd, r["read"], "I" * len(r["read"])) if fastq else ">%s\n%s\n" % (hd, r["read"])
+    whole = "".join(rec(i, r, how == "fastq") for i, r in enumerate(reads))
+    inputs, stdin = [rf], None
+    if how == "stdin":
+        inputs, stdin = [], whole.encode()
+    elif how == "two_files":
+        k = len(reads) // 2
+        inputs = [os.path.join(wd, tag + ".a.fasta"), os.path.join(wd, tag + ".b.fasta")]
+        open(inputs[0], "w").write("".join(rec(i, r) for i, r in enumerate(reads) if i < k))
+        open(inputs[1], "w").write("".join(rec(i, r) for i, r in enumerate(reads) if i >= k))
+    elif how == "gz":
+        import gzip
+        inputs = [rf + ".gz"]
+        with gzip.open(inputs[0], "wt") as f:
+            f.write(whole)
+    elif how == "fastq":
+        inputs = [os.path.join(wd, tag + ".fastq")]
+        open(inputs[0], "w").write(whole)
+    else:
+        open(rf, "w").write(whole)
+    argv = [os.path.join(bindir, "obimultiplex"), "-t", sf, "--batch-size", str(cli.get("batch", 100)), "--no-progressbar", "--fasta-output"]
+    argv += ["--force-one-cpu"] if cli.get("one_cpu") else ["--max-cpu", str(cli.get("cpu", 1))]
+    if cli.get("no_order"):
+        argv += ["--no-order"]
+    if cli.get("emis"):
+        argv += ["-e", str(cli["emis"])]
+    if cli.get("windels"):
+        argv += ["--with-indels"]
+    if cli.get("mode") in ("keep", "keep+unid"):
+        argv += ["--keep-errors"]
+    if cli.get("mode") in ("unid", "keep+unid"):
+        argv += ["-u", uf]
+    argv += inputs
+    rcode, out, err, dt = sh(argv, timeout=120, inp=stdin)
+    unid = {}
+    if cli.get("mode") in ("unid", "keep+unid") and os.path.exists(uf):
+        unid = parse_fasta(open(uf).read())
+    return argv, rcode, parse_fasta(out), unid, err[-600:]
+
+
+def sheet_params(txt):
+    """the @param lines of a sheet, in order: [(name, [values])]"""
+    out = []
+    for line in txt.splitlines():
+        if line.startswith("@param,"):
+            f = [x.strip() for x in line.split(",")]
+            out.append((f[1], f[2:]))
+    return out
+
+
+PARAM_KIND = dict(spacer=("", "FSpacer"), forward_spacer=("FwdOnly", "FSpacer"), reverse_spacer=("RevOnly", "FSpacer"),
+                  tag_delimiter=("", "FDelim"), forward_tag_delimiter=("FwdOnly", "FDelim"), reverse_tag_delimiter=("RevOnly", "FDelim"),
+                  matching=("", "FMode"), primer_mismatches=("", "FErr"), forward_mismatches=("FwdOnly", "FErr"), reverse_mismatches=("RevOnly", "FErr"),
+                  tag_indels=("", "FTind"), forward_tag_indels=("FwdOnly", "FTind"), reverse_tag_indels=("RevOnly", "FTind"),
+                  indels=("", "FInd"), forward_indels=("FwdOnly", "FInd"), reverse_indels=("RevOnly", "FInd"))
+
+
+def param_term(name, values):
+    """one @param line as a term of Cmd.v (None: a line the model does not know)"""
+    if name not in PARAM_KIND or not (1 <= len(values) <= 2):
+        return None
+    sc, fld = PARAM_KIND[name]
+    if len(values) == 2:
+        if sc != "" or fld == "FMode":
+            return None
+        sc = "(For %s)" % cs(values[0].lower())
+    elif sc == "":
+        sc = "Both"
+    v = values[-1]
+    if fld == "FDelim":
+        arg = str(ord(v[0]))
+    elif fld == "FMode":
+        arg = str(MODES[v])
+    elif fld == "FInd":
+        arg = "true" if v == "true" else "false"
+    else:
+        arg = str(int(v))
+    return "mkP %s (%s %s)" % (sc, fld, arg)
+
+
+def params_case(lib, txt, observed):
+    """CParams: primer pairs of the sheet, its @param lines, the command-line overrides, the settings observed in the library"""
+    ps = [param_term(n, v) for n, v in sheet_params(txt)]
+    if any(p is None for p in ps):
+        return None
+    cli = lib.get("cli") or {}
+    side = lambda m, x: "(mkS %d %d %d %d %d %s)" % (m[x + "sp"], m[x + "err"], MODES[m[x + "mode"]], m[x + "delim"], m[x + "tind"], "true" if m[x + "ind"] else "false")
+    obs_t = "[" + ";".join("mkPM %s %s %s %s" % (cs(m["fwd"]), cs(m["rev"]), side(m, "f"), side(m, "r")) for m in observed) + "]"
+    prs = "[" + ";".join("(%s,%s)" % (cs(m["fwd"]), cs(m["rev"])) for m in observed) + "]"
+    return "CParams %s [%s] (%d)%%Z %s %s" % (prs, ";".join(ps), cli.get("emis") or 0, "true" if cli.get("windels") else "false", obs_t)
+
+
+def declared_from_csv(txt):
+    """what a CSV sheet SAYS, read independently of the library and of the generator (used for the documentation template):
+    comment lines, @param lines (one value: every primer / the forward ones / the reverse ones; two values: one primer), header, rows"""
+    rows = [l.strip() for l in txt.splitlines() if l.strip() and not l.lstrip().startswith("#")]
+    params = [[x.strip() for x in r.split(",")] for r in rows if r.startswith("@param,")]
+    data = [r for r in rows if not r.startswith("@param,")]
+    header = [h.strip() for h in data[0].split(",")]
+    required = ("experiment", "sample", "sample_tag", "forward_primer", "reverse_primer")
+    markers = {}
+    for r in data[1:]:
+        f = dict(zip(header, [x.strip() for x in r.split(",")]))
+        tg = f["sample_tag"].lower().split(":")
+        tf, tr = (tg[0], tg[0]) if len(tg) == 1 else (("" if tg[0] == "-" else tg[0]), ("" if tg[1] == "-" else tg[1]))
+        key = (f["forward_primer"].lower(), f["reverse_primer"].lower())
+        m = markers.setdefault(key, dict(fwd=key[0], rev=key[1], fsp=0, rsp=0, ferr=2, rerr=2, find=False, rind=False, fmode="strict", rmode="strict",
+                                         fdelim=0, rdelim=0, ftind=0, rtind=0, samples=[]))
+        m["samples"].append(dict(f=tf, r=tr, sample=f["sample"], exp=f["experiment"], extra={k: v for k, v in f.items() if k not in required}))
+    FIELD = dict(spacer="sp", tag_delimiter="delim", matching="mode", primer_mismatches="err", mismatches="err", tag_indels="tind", indels="ind")
+    for p in params:
+        name, vals = p[1], p[2:]
+        side, base = "fr", name
+        if name.startswith("forward_"):
+            side, base = "f", name[8:]
+        elif name.startswith("reverse_"):
+            side, base = "r", name[8:]
+        fld, v = FIELD[base], vals[-1]
+        v = (v == "true") if fld == "ind" else (0 if v == "0" else ord(v.lower())) if fld == "delim" else v if fld == "mode" else int(v)
+        for m in markers.values():
+            if len(vals) == 2:
+                if m["fwd"] == vals[0].lower():
+                    m["f" + fld] = v
+                elif m["rev"] == vals[0].lower():
+                    m["r" + fld] = v
+            else:
+                for sd in side:
+                    m[sd + fld] = v
+    ms = sorted(markers.values(), key=lambda m: (m["fwd"], m["rev"]))
+    for m in ms:
+        m["samples"].sort(key=lambda x: (x["f"], x["r"]))
+        m["ftl"], m["rtl"] = len(m["samples"][0]["f"]), len(m["samples"][0]["r"])
+    return dict(markers=ms, fmt="csv")
+
+
+def command_dir(ctx, broken):
+    d = getattr(ctx, "c12_bindir", None)
+    if d is None:
+        d, err = ctx.build_cmds(["obimultiplex"])
+        if d is None:
+            broken.append(dict(kind="command-build", detail=err))
+            d = ""
+        ctx.c12_bindir = d
+    return d or None
+
+
+def check_extras(lib, rd, r):
+    """annotations of a record beyond the demultiplexing vocabulary: those the read carried + those the sheet declares for the assigned sample"""
+    exp = own_annotations(rd.get("annots"))
+    if r["has_sample"] and r["fp"]:
+        _, m = find_marker(lib, r["fp"], r["rp"])
+        if m is not None:
+            smp, _ = expected_sample(m, r["ft"], r["rt"])
+            if smp is not None:
+                exp = dict(exp, **smp.get("extra", {}))
+    got = r.get("extra") or {}
+    if got != exp:
+        return "annotations besides the demultiplexing ones: expected %r (the read's own + those declared for the sample), got %r" % (exp, got)
+    return None
 
 
 # ----------------------------------------------------------------------------- evaluation
@@ -980,8 +1439,18 @@ def evaluate(ctx, sheets, units, broken, label, report=True, corr=True):
         # fresh Go maps on every repetition: matters when the sample table is scanned (hamming / indel) or several markers compete
         ms = lib.get("markers", [])
         return 4 if (len(ms) > 1 or any(m["fmode"] != "strict" or m["rmode"] != "strict" for m in ms)) else 2
-    cases = [dict(op="demux", sheet=txt, reads=[r["read"] for r in reads], hits=True, reps=reps_for(lib)) for (lib, txt, reads) in sheets] + units
+    def demux_case(lib, txt, reads):
+        c = dict(op="demux", sheet=txt, reads=[r["read"] for r in reads], hits=True, reps=reps_for(lib))
+        if any(r.get("annots") for r in reads):
+            c["annots"] = [r.get("annots") or {} for r in reads]
+        if lib.get("cli"):                           # through the real ExtractMultiBarcodeSliceWorker with the command-line options
+            c.update(via="worker", emis=lib["cli"].get("emis", 0), windels=bool(lib["cli"].get("windels")))
+        return c
+    cases = [demux_case(lib, txt, reads) for (lib, txt, reads) in sheets] + units
+    tm = ctx.cov.setdefault("timing_s", {})
+    t0 = time.time()
     obs = ctx.vh_robust("c12", cases, timeout=600, one_timeout=20)
+    tm[label + "/real_code"] = round(time.time() - t0, 1); t0 = time.time()
     stats = ctx.cov.setdefault("distribution", {})
 
     def bump(k, n=1):
@@ -995,18 +1464,58 @@ def evaluate(ctx, sheets, units, broken, label, report=True, corr=True):
         if report and perkind[kind] <= 2 and len(perkind) <= 5:      # at most two replays per clause
             ctx.violation("%s_%s_%d" % (label, kind, nviol[0]), dict(property="C12", kind=kind, **payload))
     terms, term_src = [], []
+    nmal = [0]
+    terms3, term3_src = [], []                       # cases of the round-3 model (Cmd.v): routing of the command, @param application
     for ci, ((lib, txt, reads), o) in enumerate(zip(sheets, obs)):
         if lib.get("malformed"):
             bump("sheet/malformed")
-            if o["kind"] != "parse_error":
+            bump("sheet/" + lib["malformed"].split(":")[0] + (":" + lib["malformed"].split(": ")[1] if lib["malformed"].startswith("not a library") else ""))
+            if nmal[0] % 3 == 0:                      # the command must refuse the sheet too: non-zero exit, no record written
+                bindir = command_dir(ctx, broken)
+                if bindir:
+                    wdm = tempfile.mkdtemp(prefix="c12cmd_")
+                    try:
+                        argv, rcode, so, su, errtail = run_command(bindir, dict(lib, cli=dict(mode="keep", cpu=1, batch=10)), txt, reads, wdm, "mal")
+                    finally:
+                        shutil.rmtree(wdm, ignore_errors=True)
+                    bump("command_runs_on_refused_sheets")
+                    if rcode == 0 or so:
+                        viol("malformed", dict(case=dict(sheet=txt, reads=[r["read"] for r in reads]), argv=" ".join(os.path.basename(a) for a in argv),
+                                               implementation=dict(exit=rcode, records=sum(len(v) for v in so.values()), stderr=errtail[-300:]),
+                                               expected="obimultiplex refuses the sheet (%s): non-zero exit status and no record on the output" % lib["malformed"]))
+            nmal[0] += 1
+            if o["kind"] != "parse_error" and not (lib.get("fatal_ok") and o["kind"] == "fatal"):
                 viol("malformed", dict(case=dict(sheet=txt, reads=[r["read"] for r in reads]), implementation=dict(kind=o["kind"], err=o.get("err")),
                                        expected="sheet rejected by ReadNGSFilter (%s)" % lib["malformed"]))
             continue
         bump("sheet/" + lib["fmt"]); bump("sheet/markers=%d" % len(lib["markers"]))
+        if lib.get("big"):
+            bump("sheet/larger_than_3KiB"); bump("sheet/larger_than_128KiB", 1 if lib["big"] > 131072 else 0)
+        if lib.get("per_primer_params"):
+            bump("sheet/with_per_primer_params")
+        if lib.get("cli"):
+            bump("sheet/through_worker_and_command"); bump("cli/mode=" + lib["cli"].get("mode", "default"))
+            if lib["cli"].get("emis"):
+                bump("cli/-e")
+            if lib["cli"].get("windels"):
+                bump("cli/--with-indels")
+        if lib.get("template"):
+            bump("sheet/documentation_template")
+        if lib.get("many"):
+            bump("sheet/many_reads_through_8_workers"); bump("reads_through_8_workers", len(reads))
+        if lib.get("unknown_primer_param"):
+            bump("sheet/param_for_unknown_primer")
+            if o["kind"] in ("parse_error", "fatal"):   # refusing such a sheet would be fine too; applying the line to another primer is not
+                bump("sheet/param_for_unknown_primer/rejected"); continue
         if o["kind"] != "ok":
             viol("parse", dict(case=dict(sheet=txt, reads=[]), implementation=o, expected="sheet accepted"))
             continue
         d = check_parse(lib, o["lib"])
+        pt = params_case(lib, txt, o["lib"])
+        if pt:                                       # the settings of every primer, computed from the @param lines by the model (Cmd.v)
+            terms3.append(pt); term3_src.append(("params", ci, 0)); bump("corr/params")
+            if any(len(v) == 2 for _, v in sheet_params(txt)):
+                bump("corr/params/with_one_primer_lines")
         if d:
             viol("parse", dict(case=dict(sheet=txt, reads=[]), implementation=d["got"], expected=d["expected"]))
             continue
@@ -1033,8 +1542,12 @@ def evaluate(ctx, sheets, units, broken, label, report=True, corr=True):
                 bump("chimera2/" + rd["pattern"])
             rep = dict(case=dict(sheet=txt, reads=[rd["read"]], declared=lib, rd=dict({k: v for k, v in rd.items() if k != "rc_of"}, is_rc="rc_of" in rd or bool(rd.get("is_rc")))), read_kind=rd["kind"], implementation=recs)
             # SAFETY: every record
+            if rd.get("annots"):
+                bump("read/carrying_annotations")
+                if any(k in TOOL_KEYS or k.startswith("obimultiplex_") for k in rd["annots"]):
+                    bump("read/carrying_annotations/of_a_previous_demultiplexing")
             for r in recs:
-                why = check_safety(lib, r)
+                why = check_safety(lib, r) or check_extras(lib, rd, r)
                 if why:
                     viol("safety", dict(rep, expected=why)); break
                 if r["has_sample"]:
@@ -1087,6 +1600,8 @@ def evaluate(ctx, sheets, units, broken, label, report=True, corr=True):
                 begins[h[0]] = (h[3], h[4])
             rank = dict(f=0, cr=1, r=2, cf=3)
             lhits = sorted(lhits, key=lambda h: (h[3], rank[h[4]]))
+            if rd["kind"] == "copy":
+                continue
             if indel_primers:
                 # the matcher is a parameter: the model gets the spans the library's matcher reported
                 terms.append(demux_hits_term(lib, sid, rd["read"], lhits, recs)); term_src.append(("demux", ci, ri)); bump("corr/demux_hits(primer_indels)")
@@ -1094,6 +1609,65 @@ def evaluate(ctx, sheets, units, broken, label, report=True, corr=True):
                 terms.append(demux_term(lib, sid, rd["read"], recs)); term_src.append(("demux", ci, ri))
                 if ri % 4 == 0:                     # same case with the library's own hits (ties the hit export hook to the matcher model)
                     terms.append(demux_hits_term(lib, sid, rd["read"], lhits, recs)); term_src.append(("demux", ci, ri)); bump("corr/demux_hits")
+    # THE COMMAND: obimultiplex -t sheet [-e N] [--with-indels] [--keep-errors | -u file] on the same sheet and reads must write exactly the records
+    # judged above (same library options through the same worker, in process), routed by their error flag
+    tm[label + "/oracle"] = round(time.time() - t0, 1); t0 = time.time()
+    todo = [(ci, lib, txt, reads) for ci, ((lib, txt, reads), o) in enumerate(zip(sheets, obs)) if lib.get("cli") and not lib.get("malformed") and o.get("kind") == "ok"]
+    if todo:
+        bindir = command_dir(ctx, broken)
+        if bindir:
+            wd = tempfile.mkdtemp(prefix="c12cmd_")
+            try:
+                from concurrent.futures import ThreadPoolExecutor
+                with ThreadPoolExecutor(max_workers=4) as ex:
+                    runs = list(ex.map(lambda t: run_command(bindir, t[1], t[2], t[3], wd, "%s_%d" % (label, t[0])), todo))
+            finally:
+                shutil.rmtree(wd, ignore_errors=True)
+            norm = lambda rs: sorted(({k: v for k, v in r.items()} for r in rs), key=lambda r: r.get("rank", ""))
+            for (ci, lib, txt, reads), (argv, rcode, so, su, errtail) in zip(todo, runs):
+                bump("command_runs"); bump("command_input/" + lib["cli"].get("input", "file"))
+                if lib["cli"].get("no_order"):
+                    bump("command_flag/--no-order")
+                if lib["cli"].get("one_cpu"):
+                    bump("command_flag/--force-one-cpu")
+                mode = lib["cli"].get("mode", "default")
+                bad_ri, why = None, None
+                if rcode != 0:
+                    bad_ri, why = 0, "the command failed (exit %s): %s" % (rcode, errtail)
+                for ri, recs in enumerate(obs[ci]["reads"]):
+                    if bad_ri is not None:
+                        break
+                    e_out, e_un = route(mode, recs)
+                    bump("command_records_compared", len(recs))
+                    if e_un:
+                        bump("command_records_in_unidentified_file", len(e_un))
+                    if len(e_out) < len(recs) and mode == "default":
+                        bump("command_records_discarded_by_default", len(recs) - len(e_out))
+                    if norm(so.get(ri, [])) != norm(e_out):
+                        bad_ri, why = ri, "standard output"
+                    elif norm(su.get(ri, [])) != norm(e_un):
+                        bad_ri, why = ri, "file given to -u"
+                if bad_ri is None and (set(so) | set(su)) - set(range(len(reads))):
+                    bad_ri, why = 0, "records of unknown reads in the output"
+                if bad_ri is not None:
+                    rd = reads[bad_ri]
+                    e_out, e_un = route(mode, obs[ci]["reads"][bad_ri])
+                    viol("command", dict(case=dict(sheet=txt, reads=[rd["read"]], declared=lib, rd=dict({k: v for k, v in rd.items() if k != "rc_of"}, is_rc="rc_of" in rd or bool(rd.get("is_rc")))),
+                                         argv=" ".join(os.path.basename(a) for a in argv), differs_in=why,
+                                         implementation=dict(stdout=so.get(bad_ri, []), unidentified_file=su.get(bad_ri, [])),
+                                         expected=dict(stdout=e_out, unidentified_file=e_un,
+                                                       why="the records of the in-process run of the same library (judged by the oracle and the model), "
+                                                           "routed by their obimultiplex_error flag: default = unflagged only, --keep-errors = all, -u = flagged ones to the file")))
+                # routing inside Coq: the flags of the records of every read, the mode, what was seen on each side
+                if corr and rcode == 0:
+                    MODE = {"default": "MDefault", "keep": "MKeep", "unid": "MUnid", "keep+unid": "MKeepUnid"}[mode]
+                    for ri, recs in enumerate(obs[ci]["reads"][:6]):
+                        fl = lambda rs: "[" + ";".join("(%d,%s)" % (i, "true" if r["has_err"] else "false") for i, r in rs) + "]"
+                        idx = {json.dumps(r, sort_keys=True): i for i, r in enumerate(recs)}
+                        back = lambda rs: [(idx.get(json.dumps(r, sort_keys=True), 999), r) for r in norm(rs)]
+                        terms3.append("CRoute %s %s %s %s" % (MODE, fl(list(enumerate(recs))), fl(back(so.get(ri, []))), fl(back(su.get(ri, [])))))
+                        term3_src.append(("route", ci, ri)); bump("corr/route")
+    tm[label + "/command"] = round(time.time() - t0, 1); t0 = time.time()
     for ui, (c, o) in enumerate(zip(units, obs[len(sheets):])):
         bump("unit/" + c["op"])
         if o["kind"] in ("crash", "panic", "fatal"):
@@ -1142,29 +1716,64 @@ def evaluate(ctx, sheets, units, broken, label, report=True, corr=True):
         terms.append(unit_term(c, o)); term_src.append(("unit", ui, 0))
     if not corr:                                     # search for a failing input: the direct oracle only
         return obs, [], nviol[0]
+    tm[label + "/units"] = round(time.time() - t0, 1); t0 = time.time()
     bad, err = ctx.correspond(label, IMPORTS, terms, shard=120)
+    tm[label + "/coq(%d terms)" % len(terms)] = round(time.time() - t0, 1); t0 = time.time()
     if bad is None:
         broken.append(dict(kind="correspondence", detail=err))
         return obs, [], nviol[0]
     mism_src = [term_src[i] for i in bad]
+    if terms3 and USE_CMD_MODEL:
+        bad3, err = ctx.correspond(label + "_cmd", IMPORTS3, terms3, fn="mismatches3", shard=400)
+        if bad3 is None:
+            broken.append(dict(kind="correspondence", detail=err))
+        else:
+            mism_src += [term3_src[i] for i in bad3]
     return obs, mism_src, nviol[0]
 
 
-def gen_all(ctx, nsheets, nreads, nunits):
+def gen_all(ctx, nsheets, nreads, nunits, broken=None, with_template=False):
     rng = ctx.rng
     sheets = list(corpus())
+    if with_template:
+        t = template_case(ctx, broken if broken is not None else [])
+        if t:
+            sheets.append(t)
     for _ in range(nsheets):
         lib, txt = gen_sheet(rng)
+        if rng.random() < 0.4:                       # this sheet also goes through the worker of the command (in process) and the command itself
+            lib["cli"] = gen_cli(rng)
+            lib = effective_lib(lib)
         sheets.append((lib, txt, gen_reads(rng, lib, nreads)))
+    if with_template:                                # (main batch only) sheets of realistic size: 96 samples (> 3 KiB), ~2100 samples (> 128 KiB)
+        for (nf, nr, fmt, mode, nrd) in [(12, 8, "csv", "hamming", 4), (12, 8, "old", "strict", 3), (46, 46, rng.choice(["csv", "old"]), "strict", 2)]:
+            lib, txt = gen_big_sheet(rng, nf, nr, fmt, mode)
+            if nf < 20:
+                lib["cli"] = gen_cli(rng); lib = effective_lib(lib)
+            sheets.append((lib, txt, [r for r in gen_reads(rng, lib, nrd * 3) if r["kind"] in ("canon", "pmis", "tagerr", "short", "partial")][:2 * nrd]))
+    if with_template:                                # one compiled library shared by many concurrent workers: 30 reads x 12 copies, batches of 1
+        lib, txt = gen_sheet(rng)
+        lib["cli"] = dict(emis=0, windels=False, mode="keep", cpu=8, batch=1); lib["many"] = True
+        base = gen_reads(rng, lib, 15)
+        rds = list(base)
+        for _k in range(11):
+            cp = [dict(read=r["read"], kind="copy", amps=[], annots=r.get("annots")) for r in base]
+            rng.shuffle(cp)
+            rds += cp
+        sheets.append((lib, txt, rds))
     for _ in range(max(4, nsheets // 15)):           # malformed stream
         sheets.append(gen_malformed(rng))
         sheets.append(gen_shared_primer(rng))
+    for kind in MALFORMED2:                          # every shape in every run, then more at random
+        sheets.append(gen_malformed2(rng, kind))
+    for _ in range(nsheets // 20):
+        sheets.append(gen_malformed2(rng))
     return sheets, gen_units(rng, nunits)
 
 
 def run(ctx, broken):
     ns, nr, nu = (70, 5, 100) if ctx.quick else (1500, 8, 2000)
-    sheets, units = gen_all(ctx, ns, nr, nu)
+    sheets, units = gen_all(ctx, ns, nr, nu, broken, with_template=True)
     obs, mism, nv = evaluate(ctx, sheets, units, broken, "main")
     nreads = sum(len(r) for _, _, r in sheets)
     ctx.cov["evaluations"] = nreads + len(units)
@@ -1186,6 +1795,14 @@ def run(ctx, broken):
     ctx.cov["closest_cases_not_every_order_seen"] = d.get("closest/some_orders_not_seen", 0)
     ctx.cov["chimeras_by_status_pattern"] = {k.split("/")[-1]: v for k, v in d.items() if k.startswith("canonical_asserted/chimera2/")}
     ctx.cov["demultiplexing_repetitions_on_fresh_maps"] = d.get("reps", 0)
+    ctx.cov["obimultiplex_command_runs"] = d.get("command_runs", 0)
+    ctx.cov["records_compared_with_the_command_output"] = d.get("command_records_compared", 0)
+    ctx.cov["sheets_through_ExtractMultiBarcodeSliceWorker"] = d.get("sheet/through_worker_and_command", 0)
+    ctx.cov["param_cases_in_coq"] = d.get("corr/params", 0)
+    ctx.cov["param_cases_with_one_primer_lines"] = d.get("corr/params/with_one_primer_lines", 0)
+    ctx.cov["routing_cases_in_coq"] = d.get("corr/route", 0)
+    ctx.cov["reads_carrying_annotations_of_a_previous_demultiplexing"] = d.get("read/carrying_annotations/of_a_previous_demultiplexing", 0)
+    ctx.cov["rejected_sheet_shapes"] = sorted(k.split(":", 1)[1] for k in d if k.startswith("sheet/not a library:"))
     mid = len(sheets) // 2
     while sheets[mid][0].get("malformed"):
         mid -= 1
@@ -1199,7 +1816,12 @@ def run(ctx, broken):
         evaluate(ctx, more_s, more_u, [], "search", corr=False)
         if not ctx.violations:
             k, ci, ri = mism[0]
-            first = dict(sheet=sheets[ci][1], read=sheets[ci][2][ri]["read"], implementation=obs[ci]["reads"][ri]) if k == "demux" else dict(unit=units[ci], implementation=obs[len(sheets) + ci])
+            if k in ("demux", "route"):
+                first = dict(sheet=sheets[ci][1], read=sheets[ci][2][ri]["read"], cli=sheets[ci][0].get("cli"), implementation=obs[ci]["reads"][ri])
+            elif k == "params":
+                first = dict(sheet=sheets[ci][1], cli=sheets[ci][0].get("cli"), implementation=obs[ci].get("lib"))
+            else:
+                first = dict(unit=units[ci], implementation=obs[len(sheets) + ci])
             broken.append(dict(kind="correspondence", name="corr:C12/%s" % k, first_diverging_case=first, n_diverging=len(mism)))
     elif mism:
         ctx.cov["note"] = "model and implementation diverge on %d cases (violations reported by the direct oracle)" % len(mism)
